@@ -33,7 +33,7 @@ structure Tables where
   inTime : Coerce.Table
   introTable : List (Intro.GoT × String × Intro.Arm)
   locateTable : List (Intro.GoT × String)
-  metaLiteral : String
+  metaLiteral : Option String
   sdlEmptyTokenSpins : Bool
   exeVarTypeOptional : Bool
   opFallbackAnyName : Bool
